@@ -4,11 +4,14 @@ import json, os
 import glob
 CHECKS = {}
 FINDINGS = []
+ACCEPTED = open("/verif/scripts/claimed.txt").read().split()   # checks reviewed and accepted by the coordinator
 for f in sorted(glob.glob("/verif/checks/*/manifest.json")):
     pid = os.path.basename(os.path.dirname(f)).upper()
-    CHECKS[pid] = json.load(open(f))
+    if pid in ACCEPTED:
+        CHECKS[pid] = json.load(open(f))
 for f in sorted(glob.glob("/verif/checks/*/findings.json")):
-    FINDINGS += json.load(open(f))
+    if os.path.basename(os.path.dirname(f)).upper() in ACCEPTED:
+        FINDINGS += json.load(open(f))
 json.dump(FINDINGS, open("/verif/known_findings.json", "w"), indent=1)
 PENDING_REASON = "no check built yet in this session; planned as bounded-exhaustive exploration in DESIGN.md section 2 (not a statement that model checking cannot apply)"
 props = [json.loads(l)["id"] for l in open("/verif/properties.jsonl")]
